@@ -579,7 +579,7 @@ func (session *HermesSession) Run(workingDir string, args []string, logID string
 			// ************ END OF SOWING MODULE ************
 			var STEPS float64
 			if WDT < g.DT.Num {
-				STEPS = g.DT.Num / WDT
+				STEPS = math.Round(g.DT.Num / WDT) // WDT is 1/n: the quotient is n up to round-off, int() alone drops a step for n = 93, 99, ...
 			} else {
 				STEPS, WDT = 1, 1
 			}
